@@ -591,6 +591,24 @@ def replay_readers(p):
                 nb = f"{type(e).__name__}"
             if nb != 3:
                 msgs.append(f"get_blocks_in_file = {nb} for a file of 3 blocks with {cards} cards (DIRECTIO={dv!r})")
+            # the same question for from_data, on a real recording whose header has this many cards
+            src = an.Antenna(sample_rate=1024.0, num_pols=2, seed=1)
+            src.x.add_noise(0, 1)
+            src.y.add_noise(0, 1)
+            be2 = bk.RawVoltageBackend(src, qz.RealQuantizer(), pf.PolyphaseFilterbank(num_taps=2, num_branches=4), qz.ComplexQuantizer(), start_chan=0, num_chans=2,
+                                       block_size=1024, blocks_per_file=4, num_subblocks=1)
+            probe = {} if dv is None else {'DIRECTIO': dv}
+            be2.record(os.path.join(d, f'probe{cards}'), num_blocks=1, length_mode='num_blocks', header_dict=dict(probe), verbose=False, load_template=False)
+            base_cards = len(ru.read_header(os.path.join(d, f'probe{cards}.0000.raw')))
+            if cards >= base_cards:
+                user = dict(probe)
+                user.update({f'K{i:03d}': i for i in range(cards - base_cards)})
+                be2.record(os.path.join(d, f'in{cards}'), num_blocks=2, length_mode='num_blocks', header_dict=user, verbose=False, load_template=False)
+                true_hdr = os.path.getsize(os.path.join(d, f'in{cards}.0000.raw')) // 2 - 1024
+                hs = bk.RawVoltageBackend.from_data(os.path.join(d, f'in{cards}'), an.Antenna(sample_rate=1024.0, num_pols=2, seed=1), digitizer=qz.RealQuantizer(),
+                                                    filterbank=pf.PolyphaseFilterbank(num_taps=2, num_branches=4), start_chan=0, num_subblocks=1).header_size
+                if hs != true_hdr:
+                    msgs.append(f"from_data takes the input header to be {hs} bytes for {cards} cards + END (DIRECTIO={dv!r}); the recording has {true_hdr}")
             if msgs:
                 break
     except Exception as e:
